@@ -106,7 +106,7 @@ func findKeyLoops(p *Prog) []*keyLoop {
 			for _, st := range rs.Body.List {
 				switch s := st.(type) {
 				case *ast.SwitchStmt:
-					if sel, ok := s.Tag.(*ast.SelectorExpr); ok && sel.Sel.Name == "id" && exprStr(sel.X) == v.Name {
+					if sel, ok := s.Tag.(*ast.SelectorExpr); ok && sel.Sel.Name == currentFieldName("workflowKeyVal.id") && exprStr(sel.X) == v.Name {
 						kl.dispatch = s
 						for _, c := range s.Body.List {
 							for _, e := range c.(*ast.CaseClause).List {
@@ -118,7 +118,7 @@ func findKeyLoops(p *Prog) []*keyLoop {
 					}
 				case *ast.IfStmt:
 					if be, ok := s.Cond.(*ast.BinaryExpr); ok && (be.Op == token.EQL || be.Op == token.NEQ) {
-						if sel, ok := be.X.(*ast.SelectorExpr); ok && sel.Sel.Name == "id" && exprStr(sel.X) == v.Name {
+						if sel, ok := be.X.(*ast.SelectorExpr); ok && sel.Sel.Name == currentFieldName("workflowKeyVal.id") && exprStr(sel.X) == v.Name {
 							if tv := info.Types[be.Y]; tv.Value != nil && tv.Value.Kind() == constant.String {
 								kl.dispatch = s
 								kl.labels = append(kl.labels, constant.StringVal(tv.Value))
@@ -249,7 +249,7 @@ func storesUnderID(cc *ast.CaseClause, v string) bool {
 	ast.Inspect(cc, func(x ast.Node) bool {
 		if as, ok := x.(*ast.AssignStmt); ok {
 			for _, l := range as.Lhs {
-				if ix, ok := l.(*ast.IndexExpr); ok && exprStr(ix.Index) == v+".id" {
+				if ix, ok := l.(*ast.IndexExpr); ok && exprStr(ix.Index) == v+"."+currentFieldName("workflowKeyVal.id") {
 					found = true
 				}
 			}
@@ -934,7 +934,7 @@ func exactlyOneKeyCheck(info *types.Info, kl *keyLoop) string {
 		return ""
 	}
 	m := exprStr(kl.rs.X)
-	want := fmt.Sprintf("len(%s) != 1 || %s[0].id != %q", m, m, kl.labels[0])
+	want := fmt.Sprintf("len(%s) != 1 || %s[0].%s != %q", m, m, currentFieldName("workflowKeyVal.id"), kl.labels[0])
 	for _, st := range blk.List {
 		if st == ast.Stmt(kl.rs) {
 			break
